@@ -503,6 +503,20 @@ def summarise(func, limit=6000, to_raise=True, lists=False):
                         'yield' if isinstance(x, ast.Yield) else 'yieldfrom', n, x,
                         subst(x.value, env) if x.value is not None
                         else ast.Constant(value=None)))
+            if isinstance(a, ast.Expr) and isinstance(a.value, ast.Call) and \
+                    isinstance(a.value.func, ast.Name) and a.value.func.id == 'setattr' \
+                    and len(a.value.args) == 3 and not a.value.keywords:
+                # setattr(x, <name known on this path>, v) stores x.<name> = v
+                nm = subst(a.value.args[1], env)
+                if isinstance(nm, ast.Constant) and isinstance(nm.value, str) and \
+                        nm.value.isidentifier():
+                    if ps.events and ps.events[-1].kind == 'call' and \
+                            ps.events[-1].raw is a.value:
+                        ps.events.pop()
+                    tgt = ast.Attribute(value=a.value.args[0], attr=nm.value,
+                                        ctx=ast.Store())
+                    ps.events.append(Event('store', n, tgt, subst(tgt, env),
+                                           subst(a.value.args[2], env)))
             if lists and isinstance(a, ast.Expr):
                 _track_list(a.value, env)
             if isinstance(a, ast.Assign):
@@ -596,14 +610,18 @@ def _assign(ps, n, t, v, env):
     if isinstance(t, ast.Name):
         env[t.id] = v if (v is not None and size(v) < MAX_NODES) else None
     elif isinstance(t, (ast.Tuple, ast.List)):
+        known = isinstance(v, (ast.Tuple, ast.List)) and len(v.elts) == len(t.elts) \
+            and not any(isinstance(x, ast.Starred) for x in list(v.elts) + list(t.elts))
         for k, e in enumerate(t.elts):
             if isinstance(e, ast.Name):
-                if isinstance(v, (ast.Tuple, ast.List)) and len(v.elts) == len(t.elts):
-                    env[e.id] = v.elts[k]
-                else:
-                    env[e.id] = None
+                env[e.id] = v.elts[k] if known else None
+            elif known:
+                _assign(ps, n, e, v.elts[k], env)
+            elif v is not None and not isinstance(e, ast.Starred):
+                _assign(ps, n, e, ast.Subscript(value=v, slice=ast.Constant(value=k),
+                                                ctx=ast.Load()), env)
             else:
-                _assign(ps, n, e, ast.Constant(value=None), env)
+                _assign(ps, n, e, None, env)
     elif isinstance(t, (ast.Subscript, ast.Attribute)):
         ps.events.append(Event('store', n, t, subst(t, env), v))
     elif isinstance(t, ast.Starred):
